@@ -245,6 +245,9 @@ func checkC14(c genCase) pbt.Result {
 		if pbt.Known("F7") && !pbt.Replaying() && c.Edit == "hostile-field-name" && isF7(out) {
 			return pbt.Result{Excluded: "F7"}
 		}
+		if pbt.Known("F53") && !pbt.Replaying() && c.Edit == "case-twin" && strings.Contains(out, "case-insensitive import collision") && strings.Contains(strings.Join(c.Args, " "), "--split-internal") {
+			return pbt.Result{Excluded: "F53"} // what the repair of F44 does not cover: twin packages whose file names differ
+		}
 		return pbt.Fail("tl2gen accepted the schema (edit %s, options %v) but the generated code does not build:\n%s", c.Edit, c.Args, tailStr(out, 12))
 	}
 	_, files := treeHash(outdir)
